@@ -352,6 +352,7 @@ func (e *Effects) analyseMust(fn *ssa.Function) *MustSummary {
 		return nil
 	}
 
+	skippedInto := map[int]bool{} // return blocks one of whose incoming (failure) edges was left out
 	in[0] = mustState{}
 	work := []int{0}
 	inWork := map[int]bool{0: true}
@@ -368,6 +369,28 @@ func (e *Effects) analyseMust(fn *ssa.Function) *MustSummary {
 		transfer(b, w)
 		outAt[bi] = w
 		for si, succ := range b.Succs {
+			// an edge on which the error that succ returns is known non-nil is not on a success path:
+			// it does not weaken what is definitely written when succ returns successfully
+			if ret, isRet := succ.Instrs[len(succ.Instrs)-1].(*ssa.Return); isRet && len(succ.Preds) > 1 {
+				if idx := resultIndex(fn, AcceptNilErr); idx >= 0 && idx < len(ret.Results) {
+					if rv := retValue(ret, idx); rv != nil {
+						if _, isPhi := rv.(*ssa.Phi); !isPhi && edgeKnowsNonNil(rv, b, succ) {
+							onlyReturn := true
+							for _, in := range succ.Instrs[:len(succ.Instrs)-1] {
+								if _, isPhi := in.(*ssa.Phi); !isPhi {
+									if _, isDbg := in.(*ssa.DebugRef); !isDbg {
+										onlyReturn = false
+									}
+								}
+							}
+							if onlyReturn {
+								skippedInto[succ.Index] = true
+								continue
+							}
+						}
+					}
+				}
+			}
 			nw := mustState{}
 			for l := range w {
 				nw[l] = true
@@ -443,7 +466,15 @@ func (e *Effects) analyseMust(fn *ssa.Function) *MustSummary {
 				dst[l] = true
 			}
 		}
-		inter(res.MustAll, &first)
+		if skippedInto[b.Index] {
+			// the state of this block describes its success paths only: nothing is claimed for all paths
+			saved := w
+			w = mustState{}
+			inter(res.MustAll, &first)
+			w = saved
+		} else {
+			inter(res.MustAll, &first)
+		}
 		if _, isAcc := accSet[ret]; isAcc {
 			inter(res.MustAcc, &firstAcc)
 			res.AtRet[ret] = w
